@@ -417,6 +417,14 @@ def enumerate_cases(run):
                 cases.append(("remove", ("add", o1, ("remove", o2, A)), Bn))
                 cases.append(("add", o1, ("add", ("remove", ("add", o2, base(3, add=True)), A), base(4, add=add2))))
                 cases.append(("remove", ("remove", ("add", o1, o2), A), A))
+                # the same key removed twice, the inner removal to the right of layers that define the key
+                x1 = ("remove", ("add", o1, ("remove", o2, A)), A)
+                x2 = ("remove", ("add", ("add", o1, base(7)), ("add", ("remove", o2, A), ("obj", [F(2, ("tag", 8))], [], []))), A)
+                for x in (x1, x2):
+                    cases.append(x)
+                    cases.append(("add", x, base(9, add=True)))
+                    cases.append(("add", x, ("obj", [F(Bn, ("insuper", A)), F(2, ("inself", 0, A))], [], [])))
+                    cases.append(("remove", ("add", base(3), x), A))
                 cases.append(("add", ("add", o1, ("remove", o2, A)), ("obj", [F(Bn, ("self", 0, A), True)], [], [])))
                 cases.append(("ext", ("remove", ("ext", o1, [F(A, ("tag", 5), add2, vis)], [], []), A),
                               [F(A, ("tag", 6), add1)], [], []))
